@@ -8,7 +8,7 @@ from urwid.canvas import CompositeCanvas
 from urwid.command_map import Command
 from urwid.split_repr import remove_defaults
 from urwid.str_util import is_wide_char, move_next_char, move_prev_char
-from urwid.util import decompose_tagmarkup
+from urwid.util import decompose_tagmarkup, get_encoding
 
 from .constants import Align, Sizing, WrapMode
 from .text import Text, TextError
@@ -422,7 +422,8 @@ class Edit(Text):
         pos = self.edit_pos
         if self.valid_char(key):
             if isinstance(key, str) and not isinstance(self._caption, str):
-                key = key.encode("utf-8")
+                # byte text is text in the target encoding, not always UTF-8
+                key = key.encode(get_encoding(), "replace")
             self.insert_text(key)
             return None
 
